@@ -16,6 +16,7 @@ import (
 
 	"verifwork/fmtdec"
 	"verifwork/reftable"
+	vos "verifwork/vos"
 )
 
 type RefIn struct {
@@ -358,6 +359,52 @@ func (r *runner) table(st *reftable.Stack, raw bool) (reftable.Table, error) {
 	return reftable.VerifRawMerged(st)
 }
 
+// faultyReads repeats the full walk of the view with the k-th positional read of a table file failing (k = 1, 2, ... until a
+// walk needs fewer reads): a read that suffers an I/O error must report an error - or, if it did not need the data, give the
+// same answer - never a different answer.  Returns "" or a description of the first wrong answer.
+func (r *runner) faultyReads(tab reftable.Table, refs []refOut, logs []logOut) (bad string) {
+	defer vos.SetReadFault(0)
+	defer func() {
+		if p := recover(); p != nil {
+			bad = fmt.Sprint("panic under an injected read error: ", p)
+		}
+	}()
+	want, _ := json.Marshal([]interface{}{refs, logs})
+	for k := int64(1); k <= 60; k++ {
+		vos.SetReadFault(k)
+		var gr []refOut
+		var gl []logOut
+		it, err := tab.SeekRef("")
+		if err == nil {
+			gr, err = scanRefs(r, it)
+		}
+		if err == nil {
+			it, err = tab.SeekLog("", math.MaxUint64)
+		}
+		if err == nil {
+			gl, err = scanLogs(r, it)
+		}
+		pending := vos.ReadFaultPending()
+		vos.SetReadFault(0)
+		if err == nil {
+			if gr == nil {
+				gr = []refOut{}
+			}
+			if gl == nil {
+				gl = []logOut{}
+			}
+			got, _ := json.Marshal([]interface{}{gr, gl})
+			if string(got) != string(want) {
+				return fmt.Sprintf("read %d of the walk failed with an I/O error: no error reported, %d refs / %d logs instead of %d / %d", k, len(gr), len(gl), len(refs), len(logs))
+			}
+		}
+		if pending {
+			break
+		}
+	}
+	return ""
+}
+
 func (r *runner) step(s Step) (ev map[string]interface{}) {
 	ev = map[string]interface{}{"op": s.Op, "h": s.H}
 	defer func() {
@@ -510,6 +557,7 @@ func (r *runner) step(s Step) (ev map[string]interface{}) {
 				ev["rawrefs"], ev["rawlogs"] = refs, logs
 			} else {
 				ev["refs"], ev["logs"] = refs, logs
+				ev["faulty"] = r.faultyReads(tab, refs, logs)
 				// the same walk again, with log lookups through the same view in its middle
 				it1, err := tab.SeekRef("")
 				if err == nil {
